@@ -122,6 +122,10 @@ pub struct Scenario {
     /// in the crash-free twin alike — typically while the victim is down
     #[serde(default)]
     pub bystander: Option<(u8, u32)>,
+    /// the first uninvolved host is registered only before this step (run and twin alike): its clock starts
+    /// at an offset from the simulation's
+    #[serde(default)]
+    pub late_u0: Option<u32>,
 }
 
 pub struct C04;
@@ -252,6 +256,8 @@ enum Ev {
     UdpSent { host: usize, n: u64, to_host: Option<usize>, step: u32 },
     UdpRecvd { host: usize, inc: u32, from_host: usize, n: u64, step: u32 },
     MainReturned { host: usize },
+    /// something the restarted software of a host observed that a clean restart rules out
+    Anomaly { host: usize, what: String },
 }
 
 #[derive(Clone)]
@@ -764,6 +770,8 @@ fn run_ops(cx: Ctx, ops: Vec<Op>, guard: TaskGuard, stream_in: Option<(TcpStream
                     use turmoil::io_uring::{opcode, types, IoUring};
                     let path = format!("/r{}_{}", cx.inc, cx.task.replace('.', "_"));
                     let r: std::io::Result<()> = async {
+                        // odd incarnations hold an O_DIRECT handle (opened first) for as long as they live
+                        let _direct = if cx.inc % 2 == 1 { sfs::OpenOptions::new().read(true).write(true).create(true).direct_io(true).open("/rdirect").ok() } else { None };
                         let f = sfs::OpenOptions::new().read(true).write(true).create(true).open(&path)?;
                         let fd = types::Fd(f.as_raw_fd());
                         let mut ring = IoUring::new(8)?;
@@ -780,8 +788,12 @@ fn run_ops(cx: Ctx, ops: Vec<Op>, guard: TaskGuard, stream_in: Option<(TcpStream
                             let mut cq = ring.completion();
                             cq.sync();
                             let mut got = 0;
-                            for _c in &mut cq {
+                            for c in &mut cq {
                                 got += 1;
+                                if c.result() != 8 {
+                                    // an ordinary buffered write of 8 bytes on a fresh file of this incarnation
+                                    cx.sh.evs.borrow_mut().push(Ev::Anomaly { host: cx.host, what: format!("incarnation {} of {}: an 8-byte io_uring write on a buffered file it has just opened completed with {}", cx.inc, cx.sh.names[cx.host], c.result()) });
+                                }
                             }
                             done += got;
                             cx.log(format!("ring write {k} pushed={pushed} submit={:?} cqes={got} total={done}", sub.map_err(|e| e.kind())));
@@ -1100,7 +1112,8 @@ fn gen_scenario(rng: &mut Rng) -> Scenario {
         _ => Pattern::Cycles { n: rng.range(1, 3) as u8, k: *rng.pick(&[0u8, 1, 2, 7]), up: rng.range(1, 6) as u8 },
     };
     let bystander = if rng.chance(1, 6) { Some(((u0 + rng.usize(0, 1)) as u8, rng.range(1, w as u64 + 8) as u32)) } else { None };
-    Scenario { cfg, hosts, sel, pattern, crash_at: rng.range(1, w as u64) as u32, workload_steps: w, guarded, bystander }
+    let late_u0 = if rng.chance(1, 5) { Some(rng.range(2, (w as u64 / 2).max(2)) as u32) } else { None };
+    Scenario { cfg, hosts, sel, pattern, crash_at: rng.range(1, w as u64) as u32, workload_steps: w, guarded, bystander, late_u0 }
 }
 
 // ------------------------------------------------------------------------------------------------
@@ -1172,7 +1185,9 @@ fn execute(sc: &Scenario, keep: bool) -> RunOut {
 
     let res = catch(|| -> Result<Option<Violation>, String> {
         let mut sim = sc.cfg.build();
-        for (h, spec) in sc.hosts.iter().enumerate() {
+        let late_host: Option<(usize, u32)> = sc.late_u0.and_then(|k| sc.hosts.iter().position(|h| h.kind == Kind::Uninvolved && !h.ops.is_empty()).map(|h| (h, k)));
+        let register = |sim: &mut turmoil::Sim<'_>, h: usize| {
+            let spec = &sc.hosts[h];
             let shc = sh.clone();
             let ops = spec.ops.clone();
             let c = sh.counters[h].clone();
@@ -1181,6 +1196,12 @@ fn execute(sc: &Scenario, keep: bool) -> RunOut {
                 let guard = TaskGuard::new(&c, inc);
                 host_main(shc.clone(), h, inc, ops.clone(), guard)
             });
+        };
+        for h in 0..sc.hosts.len() {
+            if late_host.map(|(lh, _)| lh == h).unwrap_or(false) {
+                continue;
+            }
+            register(&mut sim, h);
         }
         let sel_names: Vec<String> = victims.iter().map(|v| sc.hosts[*v].name.clone()).collect();
         let do_sel = |sim: &mut turmoil::Sim<'_>, crash: bool| match &sc.sel {
@@ -1208,8 +1229,16 @@ fn execute(sc: &Scenario, keep: bool) -> RunOut {
         // obligations: (op id, deadline step, kind)
         let mut oblig: Vec<(u64, u32, PK, usize)> = Vec::new();
         for s in 1..=total {
+            if let Some((lh, k)) = late_host {
+                if k == s {
+                    register(&mut sim, lh);
+                    sh.log.ev(format!("ctl registers {} before step {s}", sc.hosts[lh].name));
+                    probes.push("uninvolved_host_registered_after_the_first_steps");
+                }
+            }
             if let Some((h, at)) = sc.bystander {
-                if at == s && (h as usize) < nh && !sc.hosts[h as usize].ops.is_empty() {
+                let registered = late_host.map(|(lh, k)| lh != h as usize || s >= k).unwrap_or(true);
+                if at == s && (h as usize) < nh && !sc.hosts[h as usize].ops.is_empty() && registered {
                     let name = sc.hosts[h as usize].name.clone();
                     sh.log.ev(format!("ctl bounce of the uninvolved host {name} before step {s}"));
                     sim.bounce(name);
@@ -1355,6 +1384,9 @@ fn execute(sc: &Scenario, keep: bool) -> RunOut {
                         }
                     }
                 }
+            }
+            if let Some(what) = sh.evs.borrow().iter().find_map(|e| if let Ev::Anomaly { what, .. } = e { Some(what.clone()) } else { None }) {
+                return Ok(Some(Violation::new("RestartNotClean", what)));
             }
             sh.step.set(s);
             if let Err(e) = sim.step() {
@@ -1764,6 +1796,9 @@ impl Property for C04 {
         }
         if sc.bystander.is_some() {
             out.push(Scenario { bystander: None, ..sc.clone() });
+        }
+        if sc.late_u0.is_some() {
+            out.push(Scenario { late_u0: None, ..sc.clone() });
         }
         if let Sel::Regex(_) = sc.sel {
             out.push(Scenario { sel: Sel::Host(0), ..sc.clone() });
